@@ -718,6 +718,17 @@ pub fn c13b_case(fam: &str, idx: usize, seed: u64) -> Option<Case> {
                 if k.mode == ack() && rng.bool() {
                     sc.rules.push(Rule { from: 0, to: 1, m: Matcher::KindNth(Kind::AckFin, 0), a: Action::Drop });
                     sc.scripts.push(Script { trig: Trigger::AfterInd(1, IndKind::Finished, 0), delay_ms: 1 + rng.below(2000), act: Act::RedeliverKind(0, *rng.pick(&[Kind::Eof, Kind::FileData, Kind::Metadata]), 0) });
+                } else if (k.mode == ack() || k.closure) && rng.chance(1, 3) {
+                    // the Finished PDUs that report the success are lost; what finally reaches the sender is the
+                    // Finished PDU sent after the positive-ACK limit or after a cancel by the receiving user
+                    if rng.bool() {
+                        for j in 0..k.limit as usize {
+                            sc.rules.push(Rule { from: 1, to: 0, m: Matcher::KindNth(Kind::Finished, j), a: Action::Drop });
+                        }
+                    } else {
+                        sc.rules.push(Rule { from: 1, to: 0, m: Matcher::KindNth(Kind::Finished, 0), a: Action::Drop });
+                        sc.scripts.push(Script { trig: Trigger::AfterInd(1, IndKind::Finished, 0), delay_ms: 1 + rng.below(900), act: Act::Prim(1, PrimKind::Cancel, 0) });
+                    }
                 }
             }
             let desc = format!("{} size={} requests={:?} faults=[{}] fatal-loss={}", k.describe(), size, sc.transfers[0].requests.iter().map(|r| format!("{:?}({},{})", r.action_code, r.first_filename, r.second_filename)).collect::<Vec<_>>(), rules_desc(&sc.rules), fatal);
@@ -807,19 +818,27 @@ pub fn judge_c13b(info: &Info, log: &RunLog, rep: &mut Report) {
                 rep.count("c13b_checked:tree-equals-model");
             }
             // the same responses in every Finished PDU of the receiver after the success and at the sending user
+            // (of the incarnation that delivered: a transaction re-created by a straggler after the end knows nothing)
+            let t_ok = log.recs[*li].t_us;
+            let life_end = d.spans(id, TaskKind::Recv).into_iter().filter(|s| s.start_us <= t_ok && s.end_us.map_or(true, |e| e >= t_ok)).last().and_then(|s| s.end_us).unwrap_or(u64::MAX);
             for e in d.emits(t.dst, id) {
                 if let PDUPayload::Directive(Operations::Finished(fp)) = &e.4.payload {
-                    if e.0 > *li || e.1 >= log.recs[*li].t_us {
+                    if (e.0 > *li || e.1 >= log.recs[*li].t_us) && e.1 <= life_end {
                         let g: Vec<FileStoreStatus> = fp.filestore_response.iter().map(|r| r.action_and_status).collect();
                         rep.count("c13b_checked:responses-in-finished-pdu");
-                        if g != want && fp.condition == Condition::NoError {
+                        if fp.condition != Condition::NoError {
+                            rep.count("c13b_checked:responses-in-finished-pdu-after-limit-or-cancel");
+                        }
+                        // (whatever condition the PDU carries: a limit fault or a cancel after the delivery does
+                        // not undo the requests)
+                        if g != want {
                             rep.violate("request-responses-wrong", format!("where=finished-pdu got={} want={}", g.len(), want.len()), &info.case, w(&format!("Finished PDU carries {:?}, expected {:?}", fmt(&fp.filestore_response), want)));
                         }
                     }
                 }
             }
             for (_, _, fs) in d.finished(t.src, id) {
-                if fs.report.condition == Condition::NoError && fs.delivery_code == DeliveryCode::Complete {
+                if fs.delivery_code == DeliveryCode::Complete {
                     let g: Vec<FileStoreStatus> = fs.filestore_responses.iter().map(|r| r.action_and_status).collect();
                     rep.count("c13b_checked:responses-at-sender");
                     if g != want {
@@ -862,7 +881,7 @@ pub fn meta_c13b() -> Meta {
         rule: "end to end: every single request of the C13a request set (9 actions over 8 names, 240 requests) and every ordered pair of them (complete in thorough, every 23rd in quick) carried by a transaction over a clean link; plus seeded transactions (both modes, random knobs and sizes) carrying 1-5 filestore requests over a namespace of files and directories planted at the receiver, always including a non-idempotent append of the delivered file; faults within the C02 hypothesis, or the loss of every PDU of one kind (no delivery), or a withheld ACK(Finished) with a late re-delivery (C04 window). Oracle: an executable model of the request semantics (shared with C13a) run on the receiver's initial tree gives the expected responses and the expected final tree. distinct_nontrivial = distinct (config, event-order, expected-response-list) signatures among runs with a successful delivery.".into(),
         exhaustive: false,
         assumptions: vec!["requests are expected to run iff the receiver reported Finished(NoError, Complete, Retained)".into()],
-        require: vec![("c13b_checked:responses-at-receiver".into(), 500), ("c13b_checked:responses-at-sender".into(), 200), ("c13b_runs:no-successful-delivery".into(), 50), ("c13b_runs_with_a_failing_request".into(), 100)],
+        require: vec![("c13b_checked:responses-at-receiver".into(), 500), ("c13b_checked:responses-at-sender".into(), 200), ("c13b_checked:responses-in-finished-pdu-after-limit-or-cancel".into(), 30), ("c13b_runs:no-successful-delivery".into(), 50), ("c13b_runs_with_a_failing_request".into(), 100)],
         extra: vec![],
     }
 }
